@@ -35,7 +35,7 @@ for p in props:
             "level_claimed": {
                 "category": mod.LEVEL,
                 "text": getattr(mod, "LEVEL_TEXT", "Generated-input search (Hypothesis) against oracles independent of the code under test; finds violations on the explored inputs, does not prove absence."),
-                "design_ref": f"DESIGN.md section 3 / {pid}",
+                "design_ref": f"DESIGN.md section 3 / {pid} (plan), 6.2 and 6.3 (as built, corrections), 8 (sensitivity)",
             },
             "level_note": getattr(mod, "LEVEL_NOTE", "Trusted: NumPy/SciPy/pandas, Hypothesis, the harness's own reference formulas as listed in the evidence file's assumptions."),
             "technique": getattr(mod, "TECHNIQUE", "property-based testing (Hypothesis), sharded over 16 processes"),
@@ -64,6 +64,14 @@ manifest = {
             }.get(name, name),
         }
         for name, ids in sorted(engines.items())
+    ]
+    + [
+        {
+            "name": "atheris",
+            "path": "vf/fuzz.py",
+            "serves_properties": ["C09", "C11", "C14"],
+            "kind_free_text": "second driver in the thorough tier only: the same strategy + check_case (oracle inside the target) driven by atheris/libFuzzer through Hypothesis's fuzz_one_input, 16 processes, -runs=N -seed=VERIF_SEED*1000+k; counts and any failing case are merged into the evidence file",
+        }
     ],
     "checks": checks,
     "notes": "Every check: exit 0 = held on everything explored, exit 1 + 'VIOLATION property=<id> replay=<path>' = violation, exit 2 = harness error. Known findings: known_findings.txt (KNOWN-FINDING lines, exit 0). Repairs of genuine defects are the 'fix:' commits in /repo listed in known_findings.txt as 'fixed:' entries; their reproductions are in corpus/<id>/ and are replayed first by every run.",
